@@ -2,6 +2,7 @@ package sim
 
 import (
 	"fmt"
+	"time"
 
 	"github.com/ory/keto/internal/relationtuple"
 	rts "github.com/ory/keto/proto/ory/keto/relation_tuples/v1alpha2"
@@ -556,6 +557,44 @@ func c09Faults(env *Env, rc *RunCtx, e int, et *Tape, subj relationtuple.Subject
 			return false
 		}
 		rc.Count("fault_absorbed_same_tree", 1)
+	}
+	// a request deadline on the simulated clock: every storage call takes 10 ms, the
+	// deadline falls inside the j-th call (j in the second half of the expansion,
+	// and once after its end). The answer is the whole tree or an error.
+	if N >= 2 {
+		const lat = 10 * time.Millisecond
+		js := []int{N + 2}
+		for i := 0; i < 2; i++ {
+			js = append(js, N/2+1+ft.Choose(N-N/2))
+		}
+		for _, j := range js {
+			req := &Request{Kind: "expand", Subj: subj, Depth: d}
+			plan := NoFaults()
+			plan.MaxSteps = 5000
+			plan.Latency = lat
+			plan.Deadline = time.Duration(j)*lat - lat/2 + 1300*time.Microsecond // (off the grid of the simulated event times: the deadline never ties with the end of a call)
+			r := env.Exec(ReplayThen(et.Recorded(), Mix(rc.execSeed, 0xF0B, uint64(e), uint64(j))), []*Request{req}, plan)
+			rc.Rec.Execs++
+			rc.Count("fault_deadline", 1)
+			rc.Rec.SimTimeNs += int64(r.FakeElapsed)
+			out, _ := req.result.(ExpandOut)
+			fw := func() map[string]any {
+				return w(map[string]any{"deadline": map[string]any{"storage_call_latency_ms": 10, "deadline_ms": float64(plan.Deadline) / 1e6, "storage_calls_fault_free": N}, "schedule": r.Trace, "tree_under_deadline": env.fromKetoTree(out.Tree).shape()})
+			}
+			if !r.Returned {
+				rc.Violate("no-termination", "deadline", fmt.Sprintf("BuildTree did not return although its context expired after %v", plan.Deadline), fw(), e, et)
+				return false
+			}
+			if out.Err != "" {
+				rc.Count("deadline_surfaced_as_error", 1)
+				continue
+			}
+			if got := env.fromKetoTree(out.Tree).shape(); got != want {
+				rc.Violate("incomplete", "deadline", fmt.Sprintf("the request's deadline (%v, storage calls take 10 ms, %d of them without a deadline) passed or came close; expand answered without an error with a tree that differs from the complete one", plan.Deadline, N), fw(), e, et)
+				return false
+			}
+			rc.Count("deadline_met_same_tree", 1)
+		}
 	}
 	return true
 }
